@@ -31,32 +31,39 @@ Record task := mkTask {
   t_id : tid;
   t_owner : option N;
   t_active : bool;
-  t_state : N
+  t_state : N;
+  t_idok : bool      (* agent and executor id still set (HandleExecutorFailed / HandleAgentFailed blank them) *)
 }.
 
 Definition roster := list task.
 
+(* task.go:isLocked — parent role set AND all ids non-empty.  A task whose executor or agent failed
+   keeps its parent role (it is still its environment's task: GetEnvironmentId) but is not locked. *)
 Definition is_locked (t : task) : bool :=
-  match t_owner t with Some _ => true | None => false end.
+  match t_owner t with Some _ => t_idok t | None => false end.
 
 Definition owner_is (e : N) (t : task) : bool :=
   match t_owner t with Some o => N.eqb o e | None => false end.
 
 Definition set_owner (o : option N) (t : task) : task :=
-  mkTask (t_id t) o (t_active t) (t_state t).
+  mkTask (t_id t) o (t_active t) (t_state t) (t_idok t).
 Definition set_state (s : N) (t : task) : task :=
-  mkTask (t_id t) (t_owner t) (t_active t) s.
+  mkTask (t_id t) (t_owner t) (t_active t) s (t_idok t).
 Definition set_dead (t : task) : task :=
-  mkTask (t_id t) (t_owner t) false (if is_locked t then TS_ERROR else t_state t).
+  mkTask (t_id t) (t_owner t) false (if is_locked t then TS_ERROR else t_state t) (t_idok t).
+(* HandleExecutorFailed / HandleAgentFailed: id blanked, state ERROR, status INACTIVE, parent kept *)
+Definition set_failed (t : task) : task :=
+  mkTask (t_id t) (t_owner t) false TS_ERROR false.
 
 Definition task_eqb (a b : task) : bool :=
   tid_eqb (t_id a) (t_id b) && option_eqb N.eqb (t_owner a) (t_owner b) &&
-  Bool.eqb (t_active a) (t_active b) && N.eqb (t_state a) (t_state b).
+  Bool.eqb (t_active a) (t_active b) && N.eqb (t_state a) (t_state b) && Bool.eqb (t_idok a) (t_idok b).
 
 Definition find_task (id : tid) (r : roster) : option task :=
   find (fun t => tid_eqb (t_id t) id) r.
 
-(* ---- releaseTasks(envId, tasks): per task, refuse if locked by another environment, else unlock.
+(* ---- releaseTasks(envId, tasks): per task, refuse if LOCKED by another environment, else clear the
+   parent (so also for a task that is not locked any more because its executor / agent failed).
    Result: new roster and the number of refusals (taskReleaseErrors). *)
 Fixpoint release (e : N) (ids : list tid) (r : roster) : roster * N :=
   match r with
@@ -65,21 +72,22 @@ Fixpoint release (e : N) (ids : list tid) (r : roster) : roster * N :=
       let '(r'', n) := release e ids r' in
       if mem_tid (t_id t) ids then
         match t_owner t with
-        | Some o => if N.eqb o e then (set_owner None t :: r'', n) else (t :: r'', n + 1)
+        | Some o => if N.eqb o e || negb (t_idok t) then (set_owner None t :: r'', n) else (t :: r'', n + 1)
         | None => (t :: r'', n)
         end
       else (t :: r'', n)
   end.
 
 (* ---- KillTasks(ids): the tasks of the roster that are unlocked and listed are removed from the
-   roster; a KILL call goes out for those of them that are ACTIVE.  Result: roster, KILLed ids. *)
+   roster and a KILL call goes out for each of them (for the ACTIVE ones with an acknowledgement
+   awaited, for the others — possibly still staging — best effort).  Result: roster, KILLed ids. *)
 Fixpoint kill_tasks (ids : list tid) (r : roster) : roster * list tid :=
   match r with
   | [] => ([], [])
   | t :: r' =>
       let '(r'', k) := kill_tasks ids r' in
       if mem_tid (t_id t) ids && negb (is_locked t)
-      then (r'', if t_active t then t_id t :: k else k)
+      then (r'', t_id t :: k)
       else (t :: r'', k)
   end.
 
@@ -90,7 +98,7 @@ Fixpoint cleanup (r : roster) : roster * list tid :=
   | t :: r' =>
       let '(r'', k) := cleanup r' in
       if negb (is_locked t)
-      then (r'', if t_active t then t_id t :: k else k)
+      then (r'', t_id t :: k)
       else (t :: r'', k)
   end.
 
@@ -106,6 +114,10 @@ Definition command (e : N) (targets : list tid) (refuse : list tid) (dst : N) (r
    is locked (handleMessage: t.IsLocked() -> updateTaskState ERROR). *)
 Definition task_dies (id : tid) (r : roster) : roster :=
   map (fun t => if tid_eqb (t_id t) id then set_dead t else t) r.
+
+(* ---- the executor / the agent of the tasks [ids] failed *)
+Definition fail_tasks (ids : list tid) (r : roster) : roster :=
+  map (fun t => if mem_tid (t_id t) ids then set_failed t else t) r.
 
 (* ids of the tasks a given environment owns *)
 Definition owned_ids (e : N) (r : roster) : list tid :=
